@@ -1,6 +1,7 @@
 package interpreter
 
 import (
+	"github.com/libsv/go-bk/crypto"
 	"github.com/libsv/go-bt/v2/bscript"
 	"github.com/libsv/go-bt/v2/bscript/interpreter/errs"
 	"github.com/libsv/go-bt/v2/bscript/interpreter/scriptflag"
@@ -257,4 +258,35 @@ func VH_C19_Execute() {
 	} else {
 		vreach("c19-exec-err")
 	}
+}
+
+// C19-P: pay-to-script-hash executions (the only place the saved first stack exists) with and
+// without a scribbling debugger: same verdict. The redeem script is symbolic; the locking script
+// commits to its hash through the same hash functions the opcode uses.
+func VH_C19_P2SH() {
+	vunwindCut(vparam("U", 8))
+	redeem := vnondetBytes("redeem", 1, vparam("R", 2))
+	h := crypto.Hash160(redeem)
+	lsb := append([]byte{bscript.OpHASH160, 0x14}, h...)
+	lsb = append(lsb, bscript.OpEQUAL)
+	usb := []byte{}
+	if vnondetBool("us-arg") {
+		usb = append(usb, 1, vnondetU8("arg"))
+	}
+	usb = append(usb, byte(len(redeem)))
+	usb = append(usb, redeem...)
+	ls, us := bscript.Script(lsb), bscript.Script(usb)
+	ls2, us2 := bscript.Script(vcopy(lsb)), bscript.Script(vcopy(usb))
+	flags := scriptflag.Bip16
+	if vnondetBool("cleanstack") {
+		flags |= scriptflag.VerifyCleanStack
+	}
+	err1 := NewEngine().Execute(WithScripts(&ls, &us), WithFlags(flags))
+	dbg := &vDbg{scribble: true}
+	err2 := NewEngine().Execute(WithScripts(&ls2, &us2), WithFlags(flags), WithDebugger(dbg))
+	vassert(verrCode(err1) == verrCode(err2), "C19: P2SH verdict unchanged by a scribbling debugger")
+	if err1 == nil {
+		vreach("c19-p2sh-accepted")
+	}
+	vreach("c19-p2sh")
 }
